@@ -43,7 +43,8 @@ func (prop) Sweep(string) []kernel.Scenario { return nil }
 
 func (prop) Describe() kernel.Description {
 	return kernel.Description{
-		Rule: "one run = one generated operation (consumes list in lower case drawn from concrete types, type/*, */*, entries with parameters, or empty; API default media " +
+		Rule: "Dimensions added with the seed waves: every stream fault also under a declared Content-Length; a first read that fails once and then delivers; a MatchedRoute filled through its exported fields only; consumers registered under a mixed-case spelling over a lower-case one; admitted types without a registered consumer must not be decoded by another consumer; a sibling operation served first; abandoned request contexts. " +
+			"one run = one generated operation (consumes list in lower case drawn from concrete types, type/*, */*, entries with parameters, or empty; API default media " +
 			"type present or not; tagged consumers registered for a subset) × one request: method, Content-Type spelling from a grammar (case, parameters, quoted strings, odd " +
 			"whitespace, absent, malformed), body presence signalled by Content-Length n / Content-Length 0 / chunked / neither — parsed from wire bytes by net/http — over a " +
 			"scripted body stream (empty chunked body, zero-length reads before the first byte, first byte together with EOF, error before the first byte, error after it). The " +
